@@ -427,6 +427,10 @@ def state_symptoms(runner, ob):
     for pid, cid in a.pid_refs.items():
         if cid in a.cid_refs and cid not in a.objects:
             out.append("dangling-binding")
+    if not out and any(cid not in a.cid_refs for cid in a.objects):
+        # nothing structurally wrong - an object without references is a legal state - but no sequential order of
+        # these calls leaves it behind
+        out.append("unreferenced-object-left")
     return sorted(set(out))
 
 
